@@ -18,7 +18,7 @@ import (
 
 func init() {
 	register(&Prop{ID: "C01", Gen: c01Gen, Oracle: c01Oracle,
-		Rule: "fault enumeration over (log size, tile height, record id, cache state, fault): bit flips at every position class of the lookup response (id / text / blank line / tree text / signature) and of every tile fetched, truncation, extension, extra signature, swap of responses, stale head, forged record with recomputed tiles (leaf only … all levels) under honest / attacker / spliced signatures, cache-file corruption; followed by a restart against the honest server; non-trivial = the fault changes at least one response actually read; distinct by scenario line"})
+		Rule: "fault enumeration over (log size, tile height, record id, cache state, fault): bit flips at every position class of the lookup response (id / text / blank line / tree text / signature) and of every tile fetched, truncation, extension, extra signature, swap of responses, stale head, forged record with recomputed tiles (leaf only … all levels) under honest / attacker / spliced signatures, cache-file corruption, partial tiles dropped by the server with the complete tile served as true prefix + made-up tail; followed by a restart against the honest server (same tree, and a tree that has grown past the tiles of the faulty run); honest deep trees at tile height 1 (several hundred to thousands of records, more than 16 tiles per ReadHashes plan); non-trivial = the fault changes at least one response actually read; distinct by scenario line"})
 }
 
 func c01Gen(g *Gen, n int) {
@@ -92,6 +92,26 @@ func c01Gen(g *Gen, n int) {
 			}
 		}
 	}
+	// growth between the faulty run and the restart (partial-tile-dropped faults) and deep trees at tile height 1:
+	// the same runs as in the oracle, as replay sessions
+	{
+		var cases []c01Case
+		for k := 0; k < 6; k++ {
+			N, h := 1+g.Intn(12), 1+g.Intn(2)
+			if thorough {
+				N, h = 1+g.Intn(40), 1+g.Intn(4)
+			}
+			c01EnumerateGrowth(g.Rand, wseed, N, N+1+g.Intn(3<<uint(h)), h, func(c c01Case) { cases = append(cases, c) })
+		}
+		for k := 0; k < n/80+1 && len(cases) > 0; k++ {
+			c01EmitCase(g, cases[g.Intn(len(cases))])
+		}
+		cases = nil
+		c01EnumerateDeep(g.Rand, wseed, func(c c01Case) { cases = append(cases, c) })
+		for k := 0; k < n/400+2 && len(cases) > 0; k++ {
+			c01EmitCase(g, cases[g.Intn(len(cases))])
+		}
+	}
 	// forks (SecurityError path of checkTrees): sequential C13 scenarios over two logs sharing a prefix
 	for k := 0; k < n/6+1; {
 		nA, nB := 2+g.Intn(9), 2+g.Intn(9)
@@ -139,6 +159,33 @@ func c01Gen(g *Gen, n int) {
 		for _, s := range clSessions(clRunScenario(sc)) {
 			g.Emit(s.line(), true, "lookup/special")
 		}
+	}
+}
+
+// c01EmitCase runs one scenario and emits every client instance of it as a replay session.
+func c01EmitCase(g *Gen, c c01Case) {
+	sc, ok := clParseScenario(strings.Fields(c.line)[1:])
+	if !ok {
+		return
+	}
+	out := clRunScenario(sc)
+	if out.bad || out.hang {
+		return
+	}
+	kind := strings.SplitN(c.tag, "/", 2)[0]
+	if kind == "fault" {
+		kind = c.tag[strings.LastIndexByte(c.tag, '/')+1:]
+	} else if i := strings.IndexByte(c.tag, '/'); i >= 0 {
+		kind = c.tag[i+1:]
+	}
+	for si, s := range clSessions(out) {
+		role := "faulty"
+		if c.honest {
+			role = "honest"
+		} else if si > 0 {
+			role = "restart"
+		}
+		g.Emit(s.line(), !c.honest, "lookup/"+role, "lookup/"+kind)
 	}
 }
 
@@ -438,6 +485,21 @@ func c01Enumerate(r *Rand, wseed uint64, N, h, id int, emit func(c01Case)) {
 		if len(tilePaths) > 0 {
 			single = append(single, []string{fmt.Sprintf("T*/src/F%d@%d", id, N)}, []string{"T*/err"}, []string{"T*/flip/0.7"})
 		}
+		// PARTIAL-TILE-DROPPED class (util_clpdrop.go; added because every fault above leaves the partial request and the
+		// complete-tile request failing or succeeding TOGETHER, so the "try full tile on server" fallback of readTile — the
+		// one place where the client holds hashes of which only a prefix gets authenticated — was never reached): the
+		// request for a partial tile fails, the complete tile is served with the true prefix and a made-up tail.  Per
+		// partial tile read in this cache state, and for all tiles at once.
+		nPartial := 0
+		for _, tp := range tilePaths {
+			if t, ok := clTileOfPath(tp); ok && t.L >= 0 && t.W < 1<<uint(t.H) {
+				nPartial++
+				single = append(single, []string{fmt.Sprintf("T%d.%d/pdrop/%s", t.L, t.N, clPdropVariants[r.Intn(3)])})
+			}
+		}
+		if nPartial > 0 {
+			single = append(single, []string{"T*/pdrop/" + clPdropVariants[r.Intn(3)]}, []string{"T*/pdrop/honest"})
+		}
 		// in the history setups one seed-chosen fault of the tail family is exempt from the budget sampling: the
 		// (history x altered tail) cell is evaluated for every (N, h, id) whatever the stride
 		keep := -1
@@ -484,6 +546,121 @@ func c01Enumerate(r *Rand, wseed uint64, N, h, id int, emit func(c01Case)) {
 			}
 		}
 	}
+}
+
+// c01EnumerateGrowth: the log GROWS between the (possibly faulty) run and the restart.  World of M records, the server
+// first serves A@N, the restarted client sees the honest A@M and looks up a record that needs the tiles the first
+// run has left in the cache, among them the tiles that were partial at N and are wider or complete at M.
+// Class added for the partial-tile-dropped fault: what such a run writes under the name of a COMPLETE tile is only
+// read back once the tree has grown past that tile, so "restart against the honest server cannot fail" has to be
+// asked of a larger tree than the one the faulty run saw (c01Enumerate restarts on the same tree).
+func c01EnumerateGrowth(r *Rand, wseed uint64, N, M, h int, emit func(c01Case)) {
+	if N < 1 || M < N {
+		return
+	}
+	w := clGetWorld(wseed, M, 0, 0)
+	head := fmt.Sprintf("client.run w=%d:%d:0:0 h=%d srv=A@%d", wseed, M, h, N)
+	ids := c01UniqNat([]int{0, N - 1, r.Intn(N)})
+	js := c01UniqNat([]int{min(N, M-1), M - 1, r.Intn(M)}) // N: the first record the growth added
+	setups := []string{""}
+	if N > 1 {
+		setups = append(setups, fmt.Sprintf("warm=0:A@%d:*", 1+r.Intn(N-1)))
+	}
+	for _, id := range ids {
+		if _, ok := clLookupFile(w.A.recs[id].path, w.A.recs[id].vers); !ok {
+			continue
+		}
+		for _, j := range js {
+			tail := fmt.Sprintf("new=0 look=0:A%d look=0:A%dm f-= srv=A@%d new=0 look=0:A%d", id, id, M, j)
+			for si, su := range setups {
+				name := []string{"cold", "warm"}[si]
+				mk := func(fault string) string {
+					parts := []string{head}
+					if su != "" {
+						parts = append(parts, su)
+					}
+					if fault != "" {
+						parts = append(parts, "f+="+fault)
+					}
+					return strings.Join(append(parts, tail), " ")
+				}
+				emit(c01Case{line: mk(""), honest: true, remote: true, tag: "honest/grow-" + name})
+				for _, v := range clPdropVariants {
+					emit(c01Case{line: mk("T*/pdrop/" + v), remote: true, tag: "fault/grow-" + name + "/tile-pdrop"})
+				}
+				// only the right-edge tile of one level
+				for L := 0; L < 3; L++ {
+					n := N >> (uint(h) * uint(L))
+					if n == 0 {
+						break
+					}
+					if n%(1<<uint(h)) != 0 {
+						emit(c01Case{line: mk(fmt.Sprintf("T%d.%d/pdrop/%s", L, n>>uint(h), clPdropVariants[r.Intn(3)])), remote: true, tag: "fault/grow-" + name + "/tile-pdrop"})
+					}
+				}
+			}
+		}
+	}
+}
+
+// c01EnumerateDeep: DEEP trees — tile height 1, several hundred to a few thousand records, honest server.
+// Class added because the number of tiles ONE ReadHashes call plans is about (1-bits of the tree size) + (tile levels
+// on the path of the wanted hash), i.e. up to twice the number of tile levels; with N <= 12 (quick) or <= 70 (thorough)
+// that was at most 8.  The honest clause of C01 is quantified over every log size and tile height, and the client's
+// ReadTiles handles the whole plan of a call at once, so anything in it that depends on the length of the plan is only
+// visible on a deep tree.  Sizes: 2^k-1 (every level contributes a tree-hash tile) and sizes with many 1-bits, records
+// far from the right edge (the path tiles come on top of the tree-hash tiles; the right-edge record is kept as the
+// control), three cache states: cold; cold with a much older stored head (checkTrees plans both trees); grown from a
+// smaller deep tree.
+func c01EnumerateDeep(r *Rand, wseed uint64, emit func(c01Case)) {
+	maxN, nSizes, ks := 1500, 3, []int{9, 10}
+	if thorough {
+		maxN, nSizes, ks = 4500, 10, []int{8, 9, 10, 11, 12}
+	}
+	w := clGetWorld(wseed, maxN, 0, 0)
+	sizes := []int{1<<uint(ks[r.Intn(len(ks))]) - 1}
+	if thorough {
+		for _, k := range ks {
+			sizes = append(sizes, 1<<uint(k)-1)
+		}
+	}
+	for len(sizes) < nSizes+1 {
+		n := 256 + r.Intn(maxN-255)
+		n |= r.Intn(256) | r.Intn(256) // many 1-bits
+		if n <= maxN {
+			sizes = append(sizes, n)
+		}
+	}
+	head := fmt.Sprintf("client.run w=%d:%d:0:0 h=1", wseed, maxN)
+	for _, n := range c01UniqNat(sizes) {
+		for _, id := range c01UniqNat([]int{0, 1 + r.Intn(n/2), n / 2, n - 2, n - 1}) {
+			if _, ok := clLookupFile(w.A.recs[id].path, w.A.recs[id].vers); !ok {
+				continue
+			}
+			tail := fmt.Sprintf("look=0:A%d look=0:A%dm f-= new=0 look=0:A%d", id, id, id)
+			k := n/4 + r.Intn(n/2)
+			k |= r.Intn(128)
+			if k >= n {
+				k = n - 1
+			}
+			i := r.Intn(k)
+			emit(c01Case{line: fmt.Sprintf("%s srv=A@%d new=0 %s", head, n, tail), honest: true, remote: true, tag: "honest/deep-cold"})
+			emit(c01Case{line: fmt.Sprintf("%s srv=A@%d cfg=A@%d new=0 %s", head, n, k, tail), honest: true, remote: true, tag: "honest/deep-oldhead"})
+			emit(c01Case{line: fmt.Sprintf("%s srv=A@%d new=0 look=0:A%d look=0:A%dm f-= srv=A@%d new=0 look=0:A%d", head, k, i, i, n, id), honest: true, remote: true, tag: "honest/deep-grown"})
+		}
+	}
+}
+
+func c01UniqNat(l []int) []int {
+	seen := map[int]bool{}
+	var out []int
+	for _, x := range l {
+		if x >= 0 && !seen[x] {
+			seen[x] = true
+			out = append(out, x)
+		}
+	}
+	return out
 }
 
 func c01Uniq(l []string) []string {
@@ -616,6 +793,35 @@ func c01Oracle(g *Gen, n int) {
 		}
 	}
 	g.st.OracleTags["enumerated"] = total
+	// growth between the faulty run and the restart (partial-tile-dropped faults): a seed-chosen sample of (N, M, h)
+	{
+		var cases []c01Case
+		for N := 1; N <= maxN; N++ {
+			for _, h := range heights {
+				if thorough && N > 16 && g.Intn(4) != 0 {
+					continue
+				}
+				w := 1 << uint(h)
+				// M: one more record; the leaf tile completed; the level-1 tile grown as well; anything
+				for _, M := range c01UniqNat([]int{N + 1, (N/w + 1) * w, (N/(w*w) + 1) * w * w, N + 1 + g.Intn(2*w*w)}) {
+					if M > N && M <= 5000 {
+						c01EnumerateGrowth(g.Rand, wseed, N, M, h, func(c c01Case) { cases = append(cases, c) })
+					}
+				}
+			}
+		}
+		budget := n/32 + 1
+		stride := (len(cases) + budget - 1) / budget
+		off := g.Intn(stride)
+		for i, c := range cases {
+			if i%stride == off {
+				c01Judge(g, c)
+			}
+		}
+		g.st.OracleTags["enumerated-growth"] = len(cases)
+	}
+	// deep trees at tile height 1 (honest)
+	c01EnumerateDeep(g.Rand, wseed, func(c c01Case) { c01Judge(g, c) })
 	// fixed regressions: the F6 scenario (forged record + forged leaf tile, honest head) and O3
 	for _, l := range []string{
 		"client.run w=1:7:0:0 h=2 f+=L/recsrc/F0@7 f+=T0.0/src/F0@7 new=0 look=0:A0 look=0:A0m f-= new=0 look=0:A0",
